@@ -995,7 +995,15 @@ func checkWidgetWithoutPNotSkipped(c *Ctx) {
 		return false
 	}
 	n := 0
-	eachInstr(fn, func(_ *ssa.BasicBlock, _ int, i ssa.Instruction) {
+	scope := []*ssa.Function{fn}
+	for _, o := range cg.Out[fn] {
+		if o.Pkg == fn.Pkg && o != target && len(o.Blocks) > 0 {
+			scope = append(scope, o)
+		}
+	}
+	for _, sf := range scope {
+	sfid := FuncID(sf)
+	eachInstr(sf, func(_ *ssa.BasicBlock, _ int, i ssa.Instruction) {
 		bo, ok := i.(*ssa.BinOp)
 		if !ok || (bo.Op != token.EQL && bo.Op != token.NEQ) {
 			return
@@ -1048,12 +1056,13 @@ func checkWidgetWithoutPNotSkipped(c *Ctx) {
 				}
 			}
 			if skipped {
-				r.Bad("C29.R10", fid, construct, p.Pos(bo.Pos()), "a signature widget that has no /P entry (the entry is optional) is skipped: the function returns without taking the widget off any page, the removal reports success, and the widget, its field and the signature value stay in the written document")
+				r.Bad("C29.R10", sfid, construct, p.Pos(bo.Pos()), "a signature widget that has no /P entry (the entry is optional) is skipped: the function returns without taking the widget off any page, the removal reports success, and the widget, its field and the signature value stay in the written document")
 			} else {
-				r.OK("C29.R10", fid, construct, p.Pos(bo.Pos()), "without /P the widget is still taken off the pages before the function returns", true)
+				r.OK("C29.R10", sfid, construct, p.Pos(bo.Pos()), "without /P the widget is still taken off the pages before the function returns", true)
 			}
 		}
 	})
+	}
 	if n == 0 {
 		r.Bad("C29.R10", fid, "widget without /P", p.Pos(fn.Pos()), "UNDECIDED: no nil test of the widget's /P entry")
 	}
